@@ -11,7 +11,7 @@ from sim.minimize import Budget, ddmin
 
 PROP = "C14"
 TIERS = {
-    "quick": {"runs": 12000, "budget": 35.0, "pair_firsts": 60},
+    "quick": {"runs": 12000, "budget": 30.0, "pair_firsts": 50},
     "thorough": {"runs": 600000, "budget": 900.0, "pair_firsts": None},
 }
 _R = None
@@ -168,7 +168,7 @@ def check(args):
         pair_stats["firsts"] += 1
         pair_viol.extend(out["viol"])
 
-    pair_deadline = time.monotonic() + (budget if args.tier == "thorough" else 40.0)
+    pair_deadline = time.monotonic() + (budget if args.tier == "thorough" else 35.0)
     res = core.run_batch(_pair_task, items, timeout=600.0, deadline=pair_deadline, on_result=on_pair)
     pairs_complete = len(res) == len(items)
     t_pairs = time.time() - t2
